@@ -115,9 +115,10 @@ def _stop():
 
 def strat_hist(tier):
     ex, im = cases.integrator_names()
-    return st.builds(lambda pr, me, num, integ, t0, cfl, ts, stp, dtl, rst, ts2, stp2: dict(
-        _pr(pr, integ), mesh=me, num=num, t0=t0, cfl=cfl, tsave=ts, stop=stp, dtlocal=dtl, restart=rst, tsave2=ts2, stop2=stp2),
-        _problem(), _mesh(), _num(), st.sampled_from(ex + im), st.one_of(st.just(0.0), gen.sfloat(-1, 2)), gen.f(0.05, 0.9), _rel_times(), _stop(), st.booleans(), st.booleans(), _rel_times(), _stop())
+    return st.builds(lambda pr, me, num, integ, t0, cfl, ts, stp, dtl, rst, ts2, stp2, reuse: dict(
+        _pr(pr, integ), mesh=me, num=num, t0=t0, cfl=cfl, tsave=ts, stop=stp, dtlocal=dtl, restart=rst, tsave2=ts2, stop2=stp2, reuse=reuse),
+        _problem(), _mesh(), _num(), st.sampled_from(ex + im), st.one_of(st.just(0.0), gen.sfloat(-1, 2)), gen.f(0.05, 0.9), _rel_times(), _stop(), st.booleans(), st.booleans(), _rel_times(), _stop(),
+        st.sampled_from(["none", "none", "stop", "tsave", "both"]))
 
 
 class Trajectory(object):
@@ -213,7 +214,7 @@ def _same(a, b, tol=1e-12):
     return True
 
 
-def _judge(P, case, traj, f0, tsave, stop_arg, eff, call, restart_it=None):
+def _judge(P, case, traj, f0, tsave, stop_arg, eff, call, restart_it=None, tsave_obj=None):
     """run solver.<call>(f0, cfl, tsave, stop=...) on a recording solver and judge the result against the trajectory"""
     import flowdyn.integration as integ
     cls = getattr(integ, case["integ"])
@@ -240,7 +241,7 @@ def _judge(P, case, traj, f0, tsave, stop_arg, eff, call, restart_it=None):
     if min(traj.dts[:N + 1]) < 1e-6 * traj.dts[0] or not np.isfinite(traj.dts[N]):
         raise Skip("trajectory blows up (time step collapses): unstable configuration")
     fn = solver.restart if call["name"] == "restart" else solver.solve
-    res = fn(f0, case["cfl"], list(tsave), stop=stop_arg, directives=directives)
+    res = fn(f0, case["cfl"], (list(tsave) if tsave_obj is None else tsave_obj), stop=stop_arg, directives=directives)
     what = "%s(%s, cfl=%g, tsave=%r, stop=%r%s)" % (call["name"], case["integ"], case["cfl"], [round(t, 6) for t in tsave], stop_arg, ", dtlocal" if case["dtlocal"] else "")
     # caller's field untouched
     require(f0.time == keep_time and f0.it == keep_it and all(np.array_equal(a, b) for a, b in zip(f0.data, keep_data)), "caller-field-unchanged", "%s modified the caller's initial field" % what)
@@ -338,7 +339,10 @@ def check_hist(case):
     tsave = _materialise(traj, case["tsave"])
     stop_arg, eff = _stop_dict(traj, case["stop"], tsave)
     call = dict(name="solve")
-    res, solver, N, fb = _judge(P, case, traj, f0, tsave, stop_arg, eff, call)
+    # the caller's own argument objects, handed again to the restart when the history says so ("reuse"): what they mean is their content at the first call
+    tsave_obj = list(tsave)
+    stop_orig = copy.deepcopy(stop_arg)
+    res, solver, N, fb = _judge(P, case, traj, f0, tsave, stop_arg, eff, call, tsave_obj=tsave_obj)
     labels = ["integ:" + case["integ"], "model:" + case["model"]["name"], "stop:" + case["stop"]["kind"], "dtlocal" if case["dtlocal"] else "dtglobal", "nsave:%d" % min(len(tsave), 3),
               "N:%d" % min(N, 3), "implicit" if cases.is_implicit(case["integ"]) else "explicit"]
     if any(fr == 0.0 and k == 0 for k, fr in case["tsave"]):
@@ -361,11 +365,21 @@ def check_hist(case):
             traj2 = Trajectory(P, case["integ"], case["cfl"], f1, case["dtlocal"], prev_solver=refsolver)
             traj2.extend(2)
             if all(sim.admissible(P.smd, s.data) for s in traj2.states):
-                tsave2 = _materialise(traj2, case["tsave2"])
-                stop2, eff2 = _stop_dict(traj2, case["stop2"], tsave2)
+                reuse = case.get("reuse", "none")
+                tsave2 = _materialise(traj2, case["tsave2"]) if reuse not in ("tsave", "both") else list(tsave)
+                if reuse in ("stop", "both"):
+                    stop2 = stop_arg                      # the very same dictionary object as in the first call
+                    eff2 = dict(stop_orig or {})
+                    if len(tsave2) > 0 and "tottime" not in eff2:
+                        eff2["tottime"] = tsave2[-1]
+                    if not eff2:
+                        raise Skip("restart without any stop criterion")
+                else:
+                    stop2, eff2 = _stop_dict(traj2, case["stop2"], tsave2)
                 call2 = dict(name="restart", solver=solver)
-                _judge(P, case, traj2, f1, tsave2, stop2, eff2, call2, restart_it=max(f1.it, 0))
+                _judge(P, case, traj2, f1, tsave2, stop2, eff2, call2, restart_it=max(f1.it, 0), tsave_obj=(tsave_obj if reuse in ("tsave", "both") else None))
                 labels.append("restart")
+                labels.append("restart-reuse:" + reuse)
     return dict(nontrivial=nontrivial, labels=labels)
 
 
